@@ -856,9 +856,7 @@ def gen_ext_cases(rng, n):
             k = 'diff' if form == 'varstamp' else rng.choice(['cmp', 'cmp', 'diff'])
             cases.append({'op': 'xcls', 'form': form, 'cls': ck, 'k': k, 'a': v, 'b': w, 'itz': rng.choice([None, 300, 840, -300, 330, 0]),
                           'swap': rng.random() < 0.5,
-                          # general comparison of xs:dateTimeStamp with xs:dateTime is XPTY0004 on the reference tree (operand type rule
-                          # of the general comparisons, property C07; reported to the coordinator): value comparisons only there
-                          'general': form == 'var11' and rng.random() < 0.4})
+                          'general': rng.random() < 0.4})
         elif r < 0.93:
             ck = rng.choice(['dt10', 'dt11', 'd10', 'd11'])
             cases.append({'op': 'dcast', 'cls': ck, 'to': rng.choice(['date', 'dateTime']), 'a': gen_value(rng, ck, allow_huge=False)})
@@ -1294,8 +1292,6 @@ def compare(run: Run, cases: list, record=True) -> list:
             if op == 'cmp' and case['a'][0] != case['b'][0] and abs(case['a'][0] - case['b'][0]) <= 2:
                 st.count('cmp:contiguous-years')
         tags = finding_tags(ans)
-        if case['op'] == 'fmtcomp' and case['a'][4] is None:
-            tags = tags + ['F11y']      # trigger of F11y: the value has no timezone (and the picture has a [Z] component)
         if case['op'] == 'seqfn':
             # the functions are functions of the comparison results: derive their value on (a, b) from the five bits of
             # the library's raw `_compare` (model0), of the comparison under the implicit timezone (spec)
